@@ -119,10 +119,15 @@ func CutFont(t *rapid.T) *t1ref.RawFont {
 }
 
 func Font(t *rapid.T) (*t1ref.RawFont, string) {
+	return FontOfKind(t, rapid.IntRange(0, 12).Draw(t, "hostilekind"))
+}
+
+// FontOfKind is Font with the kind given (0-12, see the labels).
+func FontOfKind(t *rapid.T, kind int) (*t1ref.RawFont, string) {
 	f := &t1ref.RawFont{Container: rapid.IntRange(0, 3).Draw(t, "container"), LenIVActual: 4}
 	hsbw := []byte{139, 139, 13}
 	label := ""
-	switch rapid.IntRange(0, 12).Draw(t, "hostilekind") {
+	switch kind {
 	case 12:
 		label = "cut-charstrings"
 		cutFont(t, f)
@@ -156,7 +161,25 @@ func Font(t *rapid.T) (*t1ref.RawFont, string) {
 		nc := rapid.IntRange(1, 4).Draw(t, "ncomposites")
 		for i := 0; i < nc; i++ {
 			var code []byte
-			switch rapid.IntRange(0, 4).Draw(t, "prefix") {
+			switch rapid.IntRange(0, 6).Draw(t, "prefix") {
+			case 5, 6:
+				// an outline of the glyph's own before seac (1-3 closed
+				// contours: the glyph is a composite and a plain glyph at once)
+				code = append(code, hsbw...)
+				num := func(v int) []byte { return t1ref.AppendNum(nil, int32(v), false) }
+				for k := rapid.IntRange(1, 3).Draw(t, "owncontours"); k > 0; k-- {
+					code = append(append(append(code, num(7*k)...), num(11)...), 21) // rmoveto
+					for l := rapid.IntRange(1, 3).Draw(t, "ownlines"); l > 0; l-- {
+						if l%2 == 1 {
+							code = append(append(code, num(50+l)...), 6) // hlineto
+						} else {
+							code = append(append(append(code, num(-20)...), num(30+l)...), 5) // rlineto
+						}
+					}
+					if rapid.IntRange(0, 2).Draw(t, "ownclosed") > 0 {
+						code = append(code, 9) // closepath
+					}
+				}
 			case 0: // nothing: seac without a width
 			case 1:
 				code = append(code, hsbw...)
@@ -171,6 +194,12 @@ func Font(t *rapid.T) (*t1ref.RawFont, string) {
 			if rapid.IntRange(0, 5).Draw(t, "badop") == 0 {
 				ops[rapid.IntRange(0, 4).Draw(t, "badopat")] = rapid.SampledFrom([]int{-1, 0, 255, 256, 65, 1000000}).Draw(t, "badopv")
 			}
+			// names sorting before, between and after the components
+			name := rapid.SampledFrom([]string{"AAcomposite", "Aacute", "Agrave", "aacute", "agrave", "zzcomposite", "B", "b"}).Draw(t, "compositename")
+			if own, ok := map[string]int{"B": 66, "b": 98}[name]; ok && rapid.Bool().Draw(t, "selfref") {
+				// the composite names itself as base or accent
+				ops[3+rapid.IntRange(0, 1).Draw(t, "selfrefat")] = own
+			}
 			for _, v := range ops {
 				code = append(code, t1ref.AppendNum(nil, int32(v), false)...)
 			}
@@ -178,8 +207,6 @@ func Font(t *rapid.T) (*t1ref.RawFont, string) {
 			if rapid.IntRange(0, 3).Draw(t, "trail") == 0 {
 				code = append(code, CsSoup(t, 2)...)
 			}
-			// names sorting before, between and after the components
-			name := rapid.SampledFrom([]string{"AAcomposite", "Aacute", "Agrave", "aacute", "agrave", "zzcomposite", "B", "b"}).Draw(t, "compositename")
 			f.Glyphs = append(f.Glyphs, t1ref.RawGlyph{Name: name, Code: code})
 		}
 	case 0:
